@@ -85,6 +85,18 @@ UNI_TEMPLATES = [
 ]
 
 
+COMMENT_TEMPLATES = [
+    "let l = map(func (x) => x + 1,\n  // the list\n  [1, 2, 3]);\n", "let l = filter(func (x) => x > 1,\n  // the list\n  [1, 2, 3]);\n",
+    "let l = reduce(func (a, x) => a + x,\n  // start\n  0,\n  [1, 2, 3]);\n", "let l = reduce(func (a, x) => a + x, 0,\n  // the list\n  [1, 2, 3]);\n",
+    "let l = map(\n  // f\n  func (x) => x,\n  // l\n  [1]);\n", "let l = [1,\n  // two\n  2];\n", "let t = {a = 1,\n  // b\n  b = 2};\n",
+    "let f = func (a,\n  // b\n  b) => a;\n", "let c = f(1,\n  // two\n  2);\n", "let s = select (\"a\",\n  // d\n  1) => {\n  // arm\n  a = 1,\n};\n",
+    "let m = module {\n  // p\n  p = 1,\n} => (\n  // out\n  r) {\n  // body\n  let r = 1;\n};\n", "let c = t{\n  // o\n  a = 2};\n",
+    "let x = (\n  // in parens\n  1 + 2);\n", "let x = 1 +\n  // rhs\n  2;\n", "let s = \"@ @\" % (1,\n  // two\n  2);\n",
+    "let r = 0:\n  // step\n  2:10;\n", "let n = not\n  // c\n  true;\n", "let k = filter(func (x) => map(func (y) => y,\n // inner\n [x]),\n // outer\n [1]);\n",
+    "assert {\n  // c\n  ok = true, desc = \"d\"};\n", "out json\n  // c\n  {a = 1};\n", "let i = import\n  // c\n  \"std/lists.ucg\";\n",
+]
+
+
 def interesting(rs):
     """the stage outcomes that break the property"""
     bad = []
@@ -188,6 +200,18 @@ def run(tier, seed):
     for u in UNI:
         for t in UNI_TEMPLATES:
             add("unicode_literals", t.replace("\u00a7", u))
+    # comments at every argument / element boundary (the formatter re-attaches them): fixed shapes, then generated programs with a
+    # comment line after random commas and opening brackets
+    for t in COMMENT_TEMPLATES:
+        add("comments_in_expressions", t)
+    for _ in range(300 if tier == "quick" else 4000):
+        toks = tokens_of(P.prog_text(P.gen_program(rng, rng.randint(1, 4), max_depth=rng.randint(2, 4), p_bad=0.0)[0]))
+        out = []
+        for tk in toks:
+            out.append(tk)
+            if tk in (",", "(", "[", "{", "=>") and rng.random() < 0.3:
+                out.append(" // c%d\n" % rng.randint(0, 9))
+        add("comments_in_expressions", "".join(out))
     corpus_dir = os.path.join(C.VERIF, "corpus", PID)
     for f in sorted(glob.glob(os.path.join(corpus_dir, "*.ucg"))):
         add("corpus", open(f, encoding="utf-8", errors="replace").read())
